@@ -79,11 +79,9 @@ func Load(patterns []string) (*Loader, error) {
 		return nil, fmt.Errorf("package load errors (the tree or a harness does not compile):\n  %s", strings.Join(errs, "\n  "))
 	}
 	prog, spkgs := ssautil.AllPackages(pkgs, ssa.InstantiateGenerics)
-	for _, p := range spkgs {
-		if p != nil {
-			p.Build()
-		}
-	}
+	// build every package up front: lazily building dependencies from several workers
+	// races with go/ssa's two-phase package build (members first, instances last)
+	prog.Build()
 	return &Loader{prog: prog, pkgs: pkgs, ssaPkgs: spkgs, loadDur: time.Since(t0), overlay: ov}, nil
 }
 
